@@ -81,6 +81,9 @@ V_ENSURES(V_IMP(V_OLD(g_mod->tb.tokens) > 0 && (V_PRIO(flags) == 0 || V_PRIO_ONE
                 && V_IMP(g_mod->state & M_MOD_RUNNING, g.tick_poll_flag == ADD && g.newevt_src == g.bstins_arg)
                 && V_IMP(!(g_mod->state & M_MOD_RUNNING), V_RET == 0 && g.starttask_calls == V_OLD(g.starttask_calls))
                 && V_IMP((g_mod->state & M_MOD_RUNNING) && g_pollinit_ret == 0 && type != M_SRC_TYPE_TASK, V_RET == 0)))                            /*@C09.new-key-registered-and-polled-iff-running*/
+/* ownership: once the set has accepted the candidate, the set's node owns the only reference -- the caller never drops it (a later refusal takes it out through the set, whose
+ * destructor releases it); a candidate the set did not accept is dropped exactly once */
+V_ENSURES(V_IMP(V_OLD(g_mod->tb.tokens) > 0 && (V_PRIO(flags) == 0 || V_PRIO_ONE(flags)) && !g_key_present && g_bstins_ret == 0, g.unref_calls == V_OLD(g.unref_calls)))  /*@C04.source-accepted-by-the-set-is-not-released-by-the-caller*/
 /* a source that could not be handed to the poll plugin (or whose task could not be started) is refused AND taken out of the set again: a refused registration leaves no trace,
  * the same call can be repeated and the reported counts stay the sizes of the sets */
 V_ENSURES(V_IMP(V_OLD(g_mod->tb.tokens) > 0 && (V_PRIO(flags) == 0 || V_PRIO_ONE(flags)) && !g_key_present && g_bstins_ret == 0 && (g_mod->state & M_MOD_RUNNING)
